@@ -186,6 +186,11 @@ def optExpr (fuel : Nat) : SX → Option Expr
   | .nil => none
   | x => some (toExpr fuel x)
 
+def setopKind : String → Option String
+  | "intersect" => some "INTERSECT"
+  | "union" => some "UNION ALL"
+  | _ => none
+
 def tsLabelsFix : Expr → Expr
   | .col (.raw s) a => if s = tsLabelsText then .col .tsLabels a else .col (.raw s) a
   | e => e
@@ -199,11 +204,25 @@ def toSel : Nat → SX → Sel
       match j.field "table" with
       | .node "WithRef" _ => some ((j.field "tp").text, aliasOf ((j.field "table").field "alias").text, toExpr fuel (j.field "on"))
       | _ => none)
+    let from_ : Option Expr :=
+      match x.field "from" with
+      | .node "Col" fs =>
+        (match (SX.node "Col" fs).field "expr" with
+         | .node n fs' =>
+           (match setopKind n with
+            | some k => some (.col (.setop k (toSels fuel ((SX.node n fs').field "selects").items)) ((SX.node "Col" fs).field "alias").text)
+            | none => optExpr fuel (x.field "from"))
+         | _ => optExpr fuel (x.field "from"))
+      | f => optExpr fuel f
     .mk withs (match x.field "distinct" with | .bool b => b | _ => false)
       ((toExprs fuel (x.field "columns").items).map tsLabelsFix)
-      (optExpr fuel (x.field "from")) joins (optExpr fuel (x.field "preWhere")) (optExpr fuel (x.field "where"))
+      from_ joins (optExpr fuel (x.field "preWhere")) (optExpr fuel (x.field "where"))
       (toExprs fuel (x.field "groupBy").items) (optExpr fuel (x.field "having"))
       (toExprs fuel (x.field "orderBy").items) (optExpr fuel (x.field "limit"))
+def toSels : Nat → List SX → List Sel
+  | _, [] => []
+  | 0, _ => []
+  | fuel + 1, x :: xs => toSel fuel x :: toSels fuel xs
 def toWiths : Nat → List SX → List (Alias × Sel)
   | _, [] => []
   | 0, _ => []
